@@ -262,7 +262,11 @@ def check_unwrapped(ck, depth):
                 bad.append(stack_name(spec) + ":env")
                 continue
             st0 = jax.eval_shape(lambda k: env.initial(key=k), jr.key(0))
-            tr = trace(lambda st: st.unwrapped.s, st0, argnames=["st"])
+            try:
+                tr = trace(lambda st: st.unwrapped.s, st0, argnames=["st"])
+            except AttributeError as ex:
+                bad.append(stack_name(spec) + f":state.unwrapped is not the base environment's state ({ex})")
+                continue
             pt = tr.passthrough()
             inner = [nm for nm in tr.in_names if nm.endswith("_s") or nm == "st_s"]
             if not (len(pt) == 1 and list(pt.values())[0] == inner[0]):
@@ -411,7 +415,7 @@ def main():
     ck = Check("C13", "wrappers and adapters")
     ck.mode = "REAL"
     depth = 2
-    ck.bound(stack_depth_methods="2 (all pairs)" + (" + 100 triples mixing action/observation/reward/time-limit layers" if ck.thorough else ""), unwrapped_depth=3 if ck.thorough else 2, state_dim=2, obs_dim=2,
+    ck.bound(stack_depth_methods="2 (all pairs)" + (" + 100 triples mixing action/observation/reward/time-limit layers" if ck.thorough else ""), unwrapped_depth=3, state_dim=2, obs_dim=2,
              rescale="bounded dyadic boxes (float arithmetic exact)", timelimit="N >= 1 symbolic, count symbolic")
     ck.stub("base environment / gymnax environment: uninterpreted functions of all operands", "io_callback of the Gymnasium adapter: uninterpreted function of its operands and a sequence number",
             "TransformAction/Observation/Reward get arbitrary (uninterpreted) user functions")
@@ -455,7 +459,7 @@ def main():
     with ck.section("rescale_grid"):
         check_rescale_grid(ck)
     with ck.section("unwrapped"):
-        check_unwrapped(ck, 3 if ck.thorough else 2)
+        check_unwrapped(ck, 3)
     with ck.section("gymnax"):
         check_gymnax(ck)
     with ck.section("gym"):
